@@ -404,12 +404,6 @@ fn get_power_level_for_sender<E: Event>(
             {
                 room_create_event = Some(RoomCreateEvent::new(aev));
             }
-
-            if room_power_levels_event.is_some()
-                && (creator_lock.get().is_some() || room_create_event.is_some())
-            {
-                break;
-            }
         }
     }
 
